@@ -423,6 +423,32 @@ def identity_cases():
     return cases
 
 
+def delivery_cases():
+    """C10's static rows: delivery between an instance and a shallow copy of it made after its signals were first used
+    (two objects, two sets of channels: each stream gets exactly the events dispatched on its own instance, stamped with it)."""
+    import anyio
+    EvA, EvB, Src, SubSrc = _classes()
+    rows = []
+
+    async def main():
+        for label, cls in (("own", Src), ("inherited", SubSrc)):
+            src = cls()
+            src.a, src.b                      # the bound signals exist before the copy is made
+            cp = copy.copy(src)
+            got = {"src": [], "cp": []}
+            async with src.a.stream_events() as s1, cp.a.stream_events() as s2:
+                cp.a.dispatch(EvA(1))
+                src.a.dispatch(EvA(2))
+                for name, st, owner in (("src", s1, src), ("cp", s2, cp)):
+                    with anyio.move_on_after(0.5):
+                        while True:
+                            ev = await st.__anext__()
+                            got[name].append((ev.n, ev.source is owner))
+            rows.append({"variant": label, "dead": got == {"src": [(2, True)], "cp": [(1, True)]}})
+    vclock.run(main, backend="asyncio", seed=0)
+    return [{"id": "copy-delivery", "kind": "weak", "rows": rows}]
+
+
 def check(prop: str, tier: str, seed: int) -> core.Report:
     rep = core.Report(prop, tier, seed)
     res = tlc.run("MC_Signals", "MC_Signals_props", workers=core.NCPU, big=True, heap="16g", timeout=3000, check=False)
